@@ -61,7 +61,17 @@ impl Distribution for Beta {
     /// Samples from the given Beta distribution using the Gamma distribution.
     fn sample(&self) -> f64 {
         let x = self.alpha_gen.sample();
-        x / (x + self.beta_gen.sample())
+        let y = self.beta_gen.sample();
+        if x + y == 0. {
+            // both gamma variates underflowed (tiny shapes): the mass sits at the end points,
+            // at 1 with probability alpha / (alpha + beta)
+            return if alea::f64() * (self.alpha + self.beta) < self.alpha {
+                1.
+            } else {
+                0.
+            };
+        }
+        x / (x + y)
     }
 }
 
